@@ -213,7 +213,7 @@ func (w *c18world) resolve(doc *jmut.Node) (kind, where, detail string) {
 			if !w.currencies[n.S] {
 				rk, rw, rd = "currency", p.Class(), "currency "+n.S+" is not a published code"
 			}
-		case key == "country" && n.K == jmut.Str:
+		case (key == "country" || key == "origin") && n.K == jmut.Str:
 			if !w.countries[n.S] {
 				rk, rw, rd = "country", p.Class(), "country "+n.S+" is not a published code"
 			}
@@ -339,6 +339,65 @@ func (w *c18world) variants(doc *jmut.Node, rngPick func(n int) int, full bool) 
 		d := doc.Clone()
 		d.Set("$tags", jmut.Ar(jmut.S(t)))
 		emit("tag", "$tags=["+t+"]", d)
+	}
+	// places that can hold references but that no example uses: sub-lines
+	// (substituted, breakdown), item identities and origin, line/document charge and
+	// discount extensions, ordering and delivery parties. A small sub-structure with
+	// one undefined reference is grafted into each
+	if lines := doc.Get("lines"); lines != nil && lines.K == jmut.Arr && len(lines.A) > 0 && lines.A[0].K == jmut.Obj {
+		bad := []struct {
+			name string
+			item func() *jmut.Node
+		}{
+			{"origin=ZZ", func() *jmut.Node {
+				return jmut.O(jmut.Member{Key: "name", Val: jmut.S("sub")}, jmut.Member{Key: "price", Val: jmut.S("1.00")}, jmut.Member{Key: "origin", Val: jmut.S("ZZ")})
+			}},
+			{"ext undefined key", func() *jmut.Node {
+				return jmut.O(jmut.Member{Key: "name", Val: jmut.S("sub")}, jmut.Member{Key: "price", Val: jmut.S("1.00")}, jmut.Member{Key: "ext", Val: jmut.O(jmut.Member{Key: "zz-undefined-ext", Val: jmut.S("x")})})
+			}},
+			{"ext value outside its list", func() *jmut.Node {
+				return jmut.O(jmut.Member{Key: "name", Val: jmut.S("sub")}, jmut.Member{Key: "price", Val: jmut.S("1.00")}, jmut.Member{Key: "ext", Val: jmut.O(jmut.Member{Key: "es-tbai-product", Val: jmut.S("nothing-like-it")})})
+			}},
+			{"identity country=QQ", func() *jmut.Node {
+				return jmut.O(jmut.Member{Key: "name", Val: jmut.S("sub")}, jmut.Member{Key: "price", Val: jmut.S("1.00")}, jmut.Member{Key: "identities", Val: jmut.Ar(jmut.O(jmut.Member{Key: "country", Val: jmut.S("QQ")}, jmut.Member{Key: "code", Val: jmut.S("1")}))})
+			}},
+		}
+		for _, b := range bad {
+			for _, where := range []string{"substituted", "breakdown"} {
+				d := doc.Clone()
+				sub := jmut.O(jmut.Member{Key: "quantity", Val: jmut.S("1")}, jmut.Member{Key: "item", Val: b.item()})
+				d.Get("lines").A[0].Set(where, jmut.Ar(sub))
+				d.Del("totals")
+				emit("graft", "lines[0]."+where+"[0].item with "+b.name, d)
+			}
+			// the same item as the line's own item
+			d := doc.Clone()
+			d.Get("lines").A[0].Set("item", b.item())
+			d.Del("totals")
+			emit("graft", "lines[0].item with "+b.name, d)
+		}
+		for _, where := range []string{"charges", "discounts"} {
+			d := doc.Clone()
+			d.Get("lines").A[0].Set(where, jmut.Ar(jmut.O(jmut.Member{Key: "reason", Val: jmut.S("x")}, jmut.Member{Key: "percent", Val: jmut.S("1%")}, jmut.Member{Key: "ext", Val: jmut.O(jmut.Member{Key: "zz-undefined-ext", Val: jmut.S("x")})})))
+			d.Del("totals")
+			emit("graft", "lines[0]."+where+"[0].ext undefined key", d)
+			d2 := doc.Clone()
+			d2.Set(where, jmut.Ar(jmut.O(jmut.Member{Key: "reason", Val: jmut.S("x")}, jmut.Member{Key: "percent", Val: jmut.S("1%")}, jmut.Member{Key: "ext", Val: jmut.O(jmut.Member{Key: "zz-undefined-ext", Val: jmut.S("x")})})))
+			d2.Del("totals")
+			emit("graft", where+"[0].ext undefined key", d2)
+		}
+		for _, where := range []string{"ordering.buyer", "ordering.seller", "delivery.receiver", "payment.payee"} {
+			parts := strings.Split(where, ".")
+			d := doc.Clone()
+			holder := d.Get(parts[0])
+			if holder == nil || holder.K != jmut.Obj {
+				holder = jmut.O()
+				d.Set(parts[0], holder)
+			}
+			holder.Set(parts[1], jmut.O(jmut.Member{Key: "name", Val: jmut.S("P")}, jmut.Member{Key: "tax_id", Val: jmut.O(jmut.Member{Key: "country", Val: jmut.S("QQ")})}, jmut.Member{Key: "addresses", Val: jmut.Ar(jmut.O(jmut.Member{Key: "locality", Val: jmut.S("X")}, jmut.Member{Key: "country", Val: jmut.S("ZZ")}))}))
+			d.Del("totals")
+			emit("graft", where+" with undefined countries", d)
+		}
 	}
 	// an addon together with each tag it offers for any document type: the tag is
 	// only defined for this document when the addon offers it for this type
@@ -566,5 +625,5 @@ func runC18(c *Ctx) {
 			c.R.Sample(map[string]any{"file": j.it.Rel, "variant": j.v.desc, "accepted": true})
 		}
 	})
-	c.Require("accepted:tag", "accepted:addon+tag", "accepted:rate", "accepted:ext-value", "accepted:country-override")
+	c.Require("rejected:graft", "accepted:tag", "accepted:addon+tag", "accepted:rate", "accepted:ext-value", "accepted:country-override")
 }
